@@ -7,9 +7,8 @@
        parameters pVoc / pIsc (independent source values and the C v0 / L i0
        initial-condition terms) gives exactly their linear parts;
      * hence LT.Thevenin applies to every netlist: net_port_affine,
-       net_isc_zth, net_zth_yth, net_load_invariance, and through
-       Gen.C01net.mna_sem the same for the assembled MNA system that the
-       regenerated stamps produce;
+       net_isc_zth, net_zth_yth, net_load_invariance (Gen.C04mna: the same for the MNA
+       system assembled from the regenerated stamps);
      * hand model (H) of the probes of lcapy/netlistopsmixin.py / netlist.py
        (kill / _kill, apply_test_current_source, apply_test_voltage_source,
        Voc, Isc + Vshort_, impedance, admittance, transfer, thevenin, norton)
@@ -21,7 +20,7 @@
        I(Isc) | Y(Yth) have the Thevenin / Norton line as terminal relation;
      * netlists that touch no ground index (and contain no ground-referenced
        class) have shift-invariant residuals: LT.Thevenin.ground_indep applies. *)
-Require Import LT.FieldSec LT.Circuit LT.MNA LT.Thevenin Gen.StampsGen Gen.C01model Gen.C01 Gen.C01net Gen.C04model.
+Require Import LT.FieldSec LT.Circuit LT.MNA LT.Thevenin Gen.StampsGen Gen.C01model Gen.C04model.
 Local Open Scope Z_scope.
 Local Open Scope bool_scope.
 
@@ -148,33 +147,6 @@ Proof.
     try (apply phys_sol; assumption); try (apply kill_sol; assumption); assumption.
 Qed.
 
-(* the same statements about the MNA system assembled from the regenerated stamps *)
-Definition mna_sol (T : list (upd K)) (i : K) (v ib : vec) : Prop :=
-  (forall r, 0 <= r -> node_res T v ib r = thru p m r i) /\ (forall q, 0 <= q -> br_res T v ib q = f0).
-Theorem mna_sol_iff (N : netlist) T i v ib : wf_net N -> assemble N = SOk T -> (mna_sol T i v ib <-> psol N i v ib).
-Proof.
-  intros W E. destruct (mna_sem K N W) as [T' [E' [_ [_ R]]]]. rewrite E in E'. inversion E'; subst T'.
-  destruct (R v ib) as [Rn Rb]. unfold mna_sol, sol. split; intros [A B]; split; intros x Hx.
-  - rewrite <- Rn by assumption. auto. - rewrite <- Rb by assumption. auto.
-  - rewrite Rn by assumption. auto. - rewrite Rb by assumption. auto.
-Qed.
-Lemma wf_killnet (N : netlist) : wf_net N -> wf_net (killnet N).
-Proof. unfold wf_net, killnet. intros H. apply Forall_map. revert H. apply Forall_impl.
-  intros [cl c] [Wc Pc]. cbn [fst snd] in *. split; [exact Wc|]. destruct cl; exact Pc. Qed.
-Theorem mna_port_affine (N : netlist) T Tk v0 ib0 vt ibt :
-  wf_net N -> assemble N = SOk T -> assemble (killnet N) = SOk Tk ->
-  (forall v ib, mna_sol Tk f0 v ib -> pvv v = f0) ->
-  mna_sol T f0 v0 ib0 -> mna_sol Tk f1 vt ibt ->
-  forall i u, (exists v ib, mna_sol T i v ib /\ pvv v = u) <-> u = fadd (pvv v0) (fmul (pvv vt) i).
-Proof.
-  intros W E Ek WP S0 St i u. pose proof (wf_killnet N W) as Wk.
-  rewrite <- (net_port_affine N v0 ib0 vt ibt).
-  - unfold port_rel. split; intros [v [ib [S Eu]]]; exists v, ib; (split; [|exact Eu]);
-      [apply (mna_sol_iff N T i v ib W E) | apply (mna_sol_iff N T i v ib W E)]; exact S.
-  - intros v ib Hp. apply (WP v ib). apply (mna_sol_iff (killnet N) Tk f0 v ib Wk Ek). apply phys_sol. exact Hp.
-  - apply phys_sol. apply (mna_sol_iff N T f0 v0 ib0 W E). exact S0.
-  - apply (mna_sol_iff (killnet N) Tk f1 vt ibt Wk Ek). exact St.
-Qed.
 End Port.
 
 (* ---- 4. hand model of the probes --------------------------------------------- *)
@@ -446,7 +418,6 @@ Print Assumptions net_port_affine.
 Print Assumptions net_isc_zth.
 Print Assumptions net_zth_yth.
 Print Assumptions net_load_invariance.
-Print Assumptions mna_port_affine.
 Print Assumptions m_kill_spec.
 Print Assumptions probe_impedance.
 Print Assumptions probe_Isc.
